@@ -57,13 +57,30 @@ def gen_tasks(tier, seed):
                 c = rng.sample(wes, 2)
                 c = [list(e) for e in dict.fromkeys(c)]
                 tasks.append({**base, "constraints": [c], "kwargs": {"weight_type": "int", "subset_constraints": [c]}})
+                # the guessed-weights pre-solve (non-default) must honour the constraint as well
+                tasks.append({**base, "constraints": [c], "kwargs": {"weight_type": "int", "subset_constraints": [c], "optimization_options": {"optimize_with_guessed_weights": True}}})
                 cd = [c[0], c[-1], c[0]]          # the same edge listed twice in one constraint
                 tasks.append({**base, "constraints": [cd], "kwargs": {"weight_type": "int", "subset_constraints": [cd]}})
+            if rep == 0 and len(walks) >= 2:
+                w0e, w1e = list(zip(walks[0][:-1], walks[0][1:])), list(zip(walks[1][:-1], walks[1][1:]))
+                only0 = [e for e in w0e if e not in w1e]
+                only1 = [e for e in w1e if e not in w0e]
+                if only0 and only1:
+                    cx = [list(only0[0]), list(only1[-1])]        # crosses the two generating walks: raises the constrained minimum
+                    for oo in ({"optimize_with_guessed_weights": True}, {}):
+                        tasks.append({**base, "constraints": [cx], "kwargs": {"weight_type": "int", "subset_constraints": [cx], "optimization_options": dict(oo)}})
             if sum(fl.values()) <= 14 and (tier != "quick" or rng.random() < 0.3):
                 tasks.append({**base, "specx": True, "kwargs": {"weight_type": "int"}})
             # scale invariance
             c_ = rng.choice(SCALES)
             tasks.append({**base, "scale": c_, "kwargs": {"weight_type": "float"}})
+    # two consecutive diamonds with the same 1/2 split (with and without a cycle on one branch) and a constraint that crosses the
+    # branches: the constrained minimum (3) is above the unconstrained one (2), also with the guessed-weights pre-solve
+    dd = [("s", "a", 3), ("a", "b", 1), ("b", "d", 1), ("d", "e", 1), ("e", "t", 1), ("a", "c", 2), ("c", "d", 2), ("d", "f", 2), ("f", "t", 2)]
+    for name, wes in (("double_diamond", dd), ("double_diamond_cycle", dd + [("c", "g", 2), ("g", "c", 2)])):
+        for oo in ({}, {"optimize_with_guessed_weights": True}, {"optimize_with_guessed_weights": True, "optimize_with_safe_sequences": False}):
+            tasks.append({"name": name, "cls": "MinFlowDecompCycles", "starts": [], "ends": [], "ignored": [], "constraints": [[["a", "b"], ["d", "f"]]], "edges": wes, "no_kmodels": True,
+                          "kwargs": {"weight_type": "int", "subset_constraints": [[["a", "b"], ["d", "f"]]], "optimization_options": dict(oo)}})
     # deterministic flows for the min-gen-set lower bound: one walk through a self loop taken m = 2, 3 times with weight 1, 2
     # (the loop's flow value is then a multiple of a walk weight, not a sub-sum)
     for name, es in F.CURATED_DIGRAPHS.items():
@@ -234,6 +251,9 @@ def run_task(task):
         res["discharged"] += 1
     else:
         sig = _diagnose(m, ok, got, k_ref, lb, statuses)
+        if ok and got < k_ref and not _returned_ok(task, G, m):
+            # fewer walks than the certified minimum AND the plain checker rejects what was returned (flow / constraint): the model's fault
+            sig = "returned-decomposition-invalid(fewer-walks-than-any-valid-decomposition)"
         res["violations"].append({"signature": f"MinFlowDecompCycles:{sig}",
                                   "summary": f"{task['name']}: solved={ok} returned k={got}, reference minimum k={k_ref}, lowerbound={lb}",
                                   "replay": {"kind": "wrapper", "task": task, "k_ref": k_ref, "witness": wit}})
@@ -358,6 +378,18 @@ def _scale_diag(task, c):
     return "repetition-cap-from-flow-value"
 
 
+def _returned_ok(task, G, m):
+    """plain validation of what the wrapper returned: walks of G, weights reproduce the flow, constraints contained"""
+    sol = m.get_solution()
+    mults = []
+    for w in sol["walks"]:
+        cnt = {}
+        for e in zip(w[:-1], w[1:]):
+            cnt[e] = cnt.get(e, 0) + 1
+        mults.append([[u, v, c] for (u, v), c in cnt.items()])
+    return witness_ok(task, G, {"mults": mults, "weights": [str(Fraction(x)) for x in sol["weights"]]})
+
+
 def replay(data):
     task = data["task"]
     if data["kind"] == "wrapper":
@@ -369,6 +401,10 @@ def replay(data):
         ok = m.solve()
         got = len(m.get_solution()["walks"]) if ok else None
         print(f"  replay: MinFlowDecompCycles solved={ok} k={got}; valid decomposition with k={data['k_ref']}: {data['witness']}")
+        if ok and got < data["k_ref"]:
+            good = _returned_ok(task, G, m)
+            print(f"  replay: returned walks {m.get_solution()['walks']} accepted by the plain checker (flow, constraints): {good}")
+            return not good
         return (not ok) or got > data["k_ref"]
     if data["kind"] == "kmodel":
         G = models.graph_of(data["wtask"])
